@@ -6,6 +6,7 @@ import (
 	"os"
 	"path/filepath"
 	"sort"
+	"strconv"
 	"strings"
 	"testing"
 
@@ -20,7 +21,8 @@ type Spec struct {
 	Foreign    []oracleFn                                  // other properties' clauses: a hit sets the case aside
 	NonTrivial func(ix *Index) (bool, []string)            // rule + classes
 	Run        func(c *Case) *Result                       // default RunCase
-	Custom     func(t *rapid.T, thorough bool, st *Stats) // fully custom property body (C11, C14, ...)
+	Custom     func(t *rapid.T, thorough bool, st *Stats) // fully custom property body (C11, ...)
+	Enumerate  func(spec *Spec, st *Stats, shard, nshards int, thorough bool, fail func(c *Case, vs []Violation, r *Result)) // exhaustive part, run before the generated part
 }
 
 var specs = map[string]*Spec{}
@@ -239,6 +241,18 @@ func TestProp(t *testing.T) {
 	thorough := os.Getenv("VERIF_TIER") == "thorough"
 	st := newStats()
 	defer st.write()
+	if spec.Enumerate != nil {
+		shard, _ := strconv.Atoi(os.Getenv("VERIF_SHARD"))
+		nsh, _ := strconv.Atoi(os.Getenv("VERIF_NSHARDS"))
+		if nsh < 1 {
+			nsh = 1
+		}
+		spec.Enumerate(spec, st, shard, nsh, thorough, func(c *Case, vs []Violation, r *Result) {
+			writeViolation(st.out, c, vs, r.Hist)
+			st.write()
+			t.Fatalf("VIOLATION %s", vs[0])
+		})
+	}
 	if spec.Custom != nil {
 		rapid.Check(t, func(rt *rapid.T) { spec.Custom(rt, thorough, st) })
 		return
@@ -330,3 +344,8 @@ func TestReplay(t *testing.T) {
 }
 
 var replayCustom = map[string]func(c *Case, raw []byte) []Violation{}
+
+func writeViolationRaw(out string, m map[string]any) {
+	b, _ := json.MarshalIndent(m, "", " ")
+	os.WriteFile(filepath.Join(out, "violation.json"), b, 0o644)
+}
